@@ -4,6 +4,9 @@ package main
 // verif transport hook against scripted replies, after a real handshake with the reference BMC.
 
 import (
+	"sync"
+	"strconv"
+	"sort"
 	"encoding/binary"
 	"net"
 	"bytes"
@@ -26,6 +29,8 @@ func init() {
 	executors["send"] = execSend
 	executors["sendhist"] = execSendHist
 	executors["sendseq"] = execSendSeq
+	executors["sendm"] = execSendM
+	scenarios["sendm"] = genSendM
 	scenarios["send"] = genSend
 }
 
@@ -374,6 +379,90 @@ func execSendSeq(a []string) (string, string) {
 	}
 	return fmt.Sprintf("seqs=[%s] res=[%s] inbound=%d", strings.Join(seqs, ", "), strings.Join(results, ", "),
 		e.sess.AuthenticatedSequenceNumbers.Inbound), verdict
+}
+
+// sendm <15 send args>: the same in-session command, reporting what the exported metrics did during the call:
+// retries / failures of "raw" / attempts of "raw" / responses per completion code (C18 at the wire: the Lean side derives
+// each attempt's outcome from the BYTES of the scripted replies)
+func execSendM(a []string) (string, string) {
+	metricsMu.Lock()
+	defer metricsMu.Unlock()
+	before := gather()
+	out, verdict := execSend(a)
+	after := gather()
+	d := func(key string) int { return int(after[key] - before[key]) }
+	resp := map[int]int{}
+	for k := range after {
+		if v := d(k); v != 0 && strings.HasPrefix(k, "bmc_command_responses_total|code=") {
+			code := strings.TrimPrefix(k, "bmc_command_responses_total|code=")
+			n, _ := strconv.ParseInt(strings.SplitN(strings.TrimPrefix(code, "0x"), "(", 2)[0], 16, 32)
+			resp[int(n)] = v
+		}
+	}
+	var ks []int
+	for k := range resp {
+		ks = append(ks, k)
+	}
+	sort.Ints(ks)
+	var rp []string
+	for _, k := range ks {
+		rp = append(rp, fmt.Sprintf("%d:%d", k, resp[k]))
+	}
+	rs := "-"
+	if len(rp) > 0 {
+		rs = strings.Join(rp, ",")
+	}
+	res := "err"
+	if i := strings.Index(out, " res="); i >= 0 && strings.HasPrefix(out[i+5:], "ok") {
+		res = "ok"
+	}
+	// the handshake of the op's own session is not part of what is measured: one session open, no command of its own
+	return fmt.Sprintf("res=%s retries=%d attempts=%d failures=%d responses=%s", res, d("bmc_command_retries_total"),
+		d("bmc_command_attempts_total|command=raw"), d("bmc_command_failures_total|command=raw"), rs), verdict
+}
+
+var metricsMu sync.Mutex
+
+func genSendM(g *genCtx) {
+	sp := learnSession(1, 1)
+	alphabet := "FEBTXUVWSNCPAHJQGKRML"
+	depth := 2
+	n := 0
+	var rec func(prefix string, d int)
+	rec = func(prefix string, d int) {
+		if d == 0 {
+			n++
+			var items []string
+			strayFixed, strayFix = nil, g.rng.Intn(2) == 0
+			for i, l := range prefix {
+				if l == 'L' {
+					items = append(items, "L")
+				} else {
+					items = append(items, replyFor(g, sp, byte(l), 0x06, 0x01, nil, i+1))
+				}
+			}
+			last := prefix[len(prefix)-1]
+			if !strings.ContainsRune("FEAL", rune(last)) {
+				if g.rng.Intn(2) == 0 {
+					items = append(items, "L")
+				} else {
+					items[len(items)-1] = "R!:" + strings.TrimPrefix(items[len(items)-1], "R:")
+				}
+			}
+			g.emit(Op{Class: 'P', NonTrivial: len(prefix) > 1, Kind: "sendm", Args: []string{itoa(int(sp.auth)), itoa(int(sp.integ)), hx(sp.k1), hx(sp.k2),
+				fmt.Sprint(sp.lid), fmt.Sprint(sp.rid), "0", "6", "1", "0", "0", "0", "-", hx(rbytes(g.rng, 16*(len(items)+1))), strings.Join(items, ",")}})
+			return
+		}
+		for _, a := range alphabet {
+			rec(prefix+string(a), d-1)
+		}
+	}
+	if g.thorough() {
+		depth = 3
+	}
+	for d := 1; d <= depth; d++ {
+		rec("", d)
+	}
 }
 
 // sessKeys runs the handshake once per suite to learn the (constant) session parameters
